@@ -416,3 +416,243 @@ Qed.
 (** the status query reports the record *)
 Theorem c04_query_agrees t i hh s : tm_rec t i = Some (hh, s) -> tm_status_tx t i = Some s.
 Proof. intro H. unfold tm_status_tx. rewrite H. reflexivity. Qed.
+
+(** * C06 *)
+
+(** transaction-manager calls never touch the transaction ids stored in timeout lists *)
+Lemma ttx_add t hh g h0 i : listed (tm_add_timeout cfg_fixed t hh (TGid g)) h0 (TTx i) <-> listed t h0 (TTx i).
+Proof.
+  unfold listed, tm_add_timeout. cbn [d_tl_empty_head cfg_fixed negb].
+  destruct (tm_tl t hh) as [l|] eqn:El.
+  - rewrite andb_true_r. destruct (tl_is_empty_str l) eqn:E; simpl; unfold upd; destruct (h0 =? hh) eqn:Eh.
+    + apply N.eqb_eq in Eh. subst h0. apply tl_is_empty_str_spec in E. subst l. rewrite El. split.
+      * intros [l0 [E0 H0]]. inversion E0; subst. simpl in H0. destruct H0 as [H0 | []]. discriminate.
+      * intros [l0 [E0 H0]]. inversion E0; subst. simpl in H0. destruct H0 as [H0 | []]. discriminate.
+    + tauto.
+    + apply N.eqb_eq in Eh. subst h0. rewrite El. split.
+      * intros [l0 [E0 H0]]. inversion E0; subst. apply in_app_or in H0. destruct H0 as [H0 | H0]; [eauto|].
+        simpl in H0. destruct H0 as [H0 | []]. discriminate.
+      * intros [l0 [E0 H0]]. inversion E0; subst. eexists. split; [reflexivity | apply in_or_app; left; exact H0].
+    + tauto.
+  - simpl. unfold upd. destruct (h0 =? hh) eqn:Eh; [|tauto].
+    apply N.eqb_eq in Eh. subst h0. rewrite El. split.
+    + intros [l0 [E0 H0]]. inversion E0; subst. simpl in H0. destruct H0 as [H0 | []]. discriminate.
+    + intros [l0 [E0 _]]. discriminate.
+Qed.
+
+Lemma remove_first_other x y l : y <> x -> (In y (remove_first x l) <-> In y l).
+Proof.
+  intro Hne. induction l as [|z t IH]; simpl; [tauto|].
+  destruct (tok_eqb x z) eqn:E.
+  - apply tok_eqb_eq in E. subst z. split; [auto | intros [H | H]; [congruence | exact H]].
+  - simpl. rewrite IH. tauto.
+Qed.
+
+Lemma ttx_remove t hh g t1 h0 i :
+  tm_remove_timeout t hh (TGid g) = Some t1 -> (listed t1 h0 (TTx i) <-> listed t h0 (TTx i)).
+Proof.
+  unfold tm_remove_timeout, listed. destruct (tm_tl t hh) as [l|] eqn:El.
+  - unfold tl_remove. destruct (count_tok (TGid g) l <=? 1)%nat; [|discriminate].
+    intro H. inversion H; subst. simpl. unfold upd. destruct (h0 =? hh) eqn:Eh; [|tauto].
+    apply N.eqb_eq in Eh. subst h0. rewrite El. split.
+    + intros [l0 [E0 H0]]. inversion E0; subst. exists l. split; [reflexivity|].
+      apply (proj1 (tl_norm_in _ (TTx i) (tok_tx_ne_empty i))) in H0.
+      apply (proj1 (remove_first_other (TGid g) (TTx i) l ltac:(discriminate))) in H0. exact H0.
+    + intros [l0 [E0 H0]]. inversion E0; subst. eexists. split; [reflexivity|].
+      apply (proj2 (tl_norm_in _ (TTx i) (tok_tx_ne_empty i))).
+      apply (proj2 (remove_first_other (TGid g) (TTx i) l0 ltac:(discriminate))). exact H0.
+  - intro H. inversion H; subst. tauto.
+Qed.
+
+Lemma tm_step_ttx w h b sf sd terr t t' ch h0 i :
+  tm_step cfg_fixed w h b sf sd terr t = Some (TmOk t' ch) ->
+  (listed t' h0 (TTx i) <-> listed t h0 (TTx i)).
+Proof.
+  intro H. apply tm_step_inv in H. inversion H; subst; try (apply listed_ext; reflexivity).
+  - match goal with Hb : bm_change _ _ _ _ _ _ _ _ _ _ |- _ => inversion Hb; subst end.
+    + rewrite (listed_ext t1 (set_child (set_glob t1 g _) (b_id b) g) eq_refl). subst t1.
+      destruct terr; [tauto | apply ttx_add].
+    + apply listed_ext. reflexivity.
+    + rewrite (listed_ext t1 (set_child (set_glob t1 g _) (b_id b) g) eq_refl). eapply ttx_remove; eauto.
+    + apply listed_ext. reflexivity.
+  - match goal with Hr : rp_change _ _ _ _ _ _ |- _ => inversion Hr; subst end.
+    + apply listed_ext. reflexivity.
+    + rewrite (listed_ext t1 (set_glob t1 g gi') eq_refl). destruct rm.
+      * eapply ttx_remove; eauto.
+      * match goal with Hx : Some _ = Some _ |- _ => inversion Hx; subst end. tauto.
+Qed.
+
+Lemma apply_ops_ttx w h ops i touched st st' rs h0 j :
+  Forall (op_wf w) ops ->
+  apply_ops cfg_fixed w h i touched st ops = Some (st', rs) ->
+  (listed (s_tm st') h0 (TTx j) <-> listed (s_tm st) h0 (TTx j)).
+Proof.
+  intros Hwf H.
+  apply (apply_ops_pres2 (fun t c => listed t h0 (TTx j) <-> listed (s_tm st) h0 (TTx j)) w h) with (ops := ops) (i := i) (touched := touched) (st := st) (rs := rs); auto; try tauto.
+  intros serial b t c t' c' r _ P Hh. apply handle_fixed_inv in Hh. inversion Hh; subst; [exact P|].
+  match goal with Ht : tm_step _ _ _ _ _ _ _ _ = Some _ |- _ => rewrite (tm_step_ttx _ _ _ _ _ _ _ _ _ h0 j Ht) end. exact P.
+Qed.
+
+(** a pending timeout: the record waits at its timeout height and the id is in that list *)
+Definition armed (t : txm) (H : N) (i : txid) (hh : N) : Prop :=
+  H < hh /\ tm_rec t i = Some (hh, ST_BEGIN) /\ listed t hh (TTx i).
+
+(** a receipt for [i] accepted among the transactions of the block *)
+Definition receipt_in (ops : list op) (rs : list txres) (i : txid) : Prop := rcv_of (combine ops rs) i.
+
+Lemma rems_rcv fin d hh i : In (hh, i) (rems_of fin d) -> rcv_of d i.
+Proof.
+  unfold rems_of. rewrite in_flat_map. intros [[o r] [Hin Hr]]. unfold rem_of in Hr. cbn [fst snd] in Hr.
+  destruct o as [b p| |]; try contradiction.
+  destruct ((match b_grp b with Some _ => true | None => false end) && is_request b); [contradiction|].
+  destruct (tx_skipped r) eqn:Esk; [contradiction|].
+  destruct (is_request b) eqn:Erq; [contradiction|].
+  destruct (is_response b) eqn:Ers; [|contradiction].
+  destruct (tm_rec fin (b_id b)) as [[h1 s1]|]; [|contradiction].
+  destruct Hr as [E | []]. inversion E; subst. exists b, p, r. auto.
+Qed.
+
+(** timeout notifications *)
+Lemma cmap_add_in m k i k' j : In j (cmap_add m k i k') <-> In j (m k') \/ (k' = k /\ j = i).
+Proof.
+  unfold cmap_add, upd. destruct (k' =? k) eqn:E.
+  - apply N.eqb_eq in E. subst. rewrite in_app_iff. simpl. intuition congruence.
+  - apply N.eqb_neq in E. intuition congruence.
+Qed.
+
+Definition kid_step (w : world) (m : cmap) (p : txid * N) : cmap :=
+  let i := fst p in
+  let m1 := cmap_add m (chain_of w (fst (fst i))) i in
+  if is_final (snd p) then cmap_add m1 (chain_of w (snd (fst i))) i else m1.
+
+Lemma timeout_map_gid w t g r m :
+  timeout_map w t (TGid g :: r) m =
+  match tm_glob t g with
+  | None => None
+  | Some gi => timeout_map w t r (fold_left (kid_step w) (sort_kids w (g_children gi)) m)
+  end.
+Proof. reflexivity. Qed.
+
+Lemma kid_step_mono w m p k j : In j (m k) -> In j (kid_step w m p k).
+Proof.
+  intro Hj. unfold kid_step. cbv zeta. destruct (is_final (snd p)).
+  - apply cmap_add_in. left. apply cmap_add_in. left. exact Hj.
+  - apply cmap_add_in. left. exact Hj.
+Qed.
+Lemma kids_fold_mono w kids : forall m k j, In j (m k) -> In j (fold_left (kid_step w) kids m k).
+Proof.
+  induction kids as [|p kids IH]; intros m k j Hj; [exact Hj|]. simpl. apply IH. apply kid_step_mono. exact Hj.
+Qed.
+
+Lemma timeout_map_mono w t : forall l m m', timeout_map w t l m = Some m' -> forall k j, In j (m k) -> In j (m' k).
+Proof.
+  induction l as [|x r IH]; intros m m' H k j Hj.
+  - simpl in H. inversion H; subst. exact Hj.
+  - destruct x as [|i|g].
+    + simpl in H. discriminate.
+    + simpl in H. eapply IH; [exact H|]. apply cmap_add_in. left. exact Hj.
+    + rewrite timeout_map_gid in H. destruct (tm_glob t g) as [gi|]; [|discriminate].
+      eapply IH; [exact H|]. apply kids_fold_mono. exact Hj.
+Qed.
+
+Lemma timeout_map_tx w t : forall l m m' i, timeout_map w t l m = Some m' -> In (TTx i) l ->
+  In i (m' (chain_of w (fst (fst i)))).
+Proof.
+  induction l as [|x r IH]; intros m m' i H Hin; [contradiction|].
+  destruct x as [|i0|g].
+  - simpl in H. discriminate.
+  - simpl in H. destruct Hin as [E | Hin].
+    + inversion E; subst i0. eapply timeout_map_mono; [exact H|]. apply cmap_add_in. right. auto.
+    + eapply IH; eauto.
+  - rewrite timeout_map_gid in H. destruct (tm_glob t g) as [gi|]; [|discriminate].
+    destruct Hin as [E | Hin]; [discriminate|]. eapply IH; eauto.
+Qed.
+
+Theorem c06_block w st ops st' bm mid t2 i hh :
+  reach w st -> block_facts w st ops st' bm mid t2 ->
+  Forall (op_wf w) ops ->
+  ~ receipt_in ops (m_res bm) i ->
+  (armed (s_tm st) (s_h st) i hh \/ In (hh, i) (pend_of w (s_h st + 1) (combine ops (m_res bm)))) ->
+  (s_h st + 1 < hh -> armed (s_tm st') (s_h st') i hh) /\
+  (s_h st + 1 = hh -> In i (m_timeout bm (chain_of w (fst (fst i)))) /\
+                      tm_rec (s_tm st') i = Some (hh, ST_BEGIN_ROLLBACK)).
+Proof.
+  intros R F Hwf Hnr Hsrc.
+  pose proof (bf_mid_tm _ _ _ _ _ _ _ F) as M.
+  set (d := combine ops (m_res bm)) in *. set (h := s_h st + 1) in *.
+  (* after the transactions: the record still waits *)
+  assert (Hmid : tm_rec (s_tm mid) i = Some (hh, ST_BEGIN) /\ s_h st < hh /\
+                 (listed (s_tm mid) hh (TTx i) \/ In (hh, i) (pend_of w h d))).
+  { destruct Hsrc as [[Hlt [Hrec Hl]] | Hp].
+    - assert (Hl' : listed (s_tm mid) hh (TTx i)).
+      { apply (apply_ops_ttx w h ops 0 false st mid (m_res bm) hh i Hwf (bf_ops _ _ _ _ _ _ _ F)). exact Hl. }
+      destruct (m_tx _ _ _ _ _ M hh i Hlt Hl') as [s [Es [Hs | Hr]]]; [subst s | contradiction].
+      split; [exact Es|]. split; [exact Hlt | left; exact Hl'].
+    - destruct (m_pend _ _ _ _ _ M hh i Hp) as [Hlt [[s [Es [Hs | Hr]]] _]]; [subst s | contradiction].
+      split; [exact Es|]. split; [lia | right; exact Hp]. }
+  destruct Hmid as [Hrec [Hlt Hsrc']].
+  (* after setTimeoutList: listed at hh *)
+  assert (Hl2 : listed t2 hh (TTx i)).
+  { apply (bf_t2_mem _ _ _ _ _ _ _ F hh (TTx i) (tok_tx_ne_empty i)). split.
+    - destruct Hsrc' as [Hl | Hp]; [left; exact Hl | right; exists i; auto].
+    - intros [i0 [E Hin]]. inversion E; subst i0. apply Hnr. eapply rems_rcv; eauto. }
+  destruct (get_timeout_list_spec w t2 (s_h st) (bf_t2_inv _ _ _ _ _ _ _ F)) as [_ [_ Lin]]. fold h in Lin.
+  split.
+  - intro Hgt. unfold armed. rewrite (bf_h _ _ _ _ _ _ _ F). split; [exact Hgt|]. split.
+    + rewrite (bf_rec _ _ _ _ _ _ _ F). fold h.
+      destruct (in_l (TTx i) (get_timeout_list t2 h)) eqn:Ei; [|exact Hrec].
+      apply in_l_spec in Ei. apply Lin in Ei. destruct Ei as [_ Hl].
+      destruct (m_tx _ _ _ _ _ (bf_t2_inv _ _ _ _ _ _ _ F) h i ltac:(unfold h; lia) Hl) as [s [Es _]].
+      rewrite (bf_t2_rec _ _ _ _ _ _ _ F), Hrec in Es. inversion Es. lia.
+    + apply (listed_ext t2 (s_tm st') (bf_tl _ _ _ _ _ _ _ F)). exact Hl2.
+  - intro Heq. fold h in Heq. subst hh.
+    assert (Hin : In (TTx i) (get_timeout_list t2 h)) by (apply Lin; split; [discriminate | exact Hl2]).
+    split.
+    + eapply timeout_map_tx; [exact (bf_tmap _ _ _ _ _ _ _ F) | exact Hin].
+    + rewrite (bf_rec _ _ _ _ _ _ _ F). fold h. apply in_l_spec in Hin. rewrite Hin. reflexivity.
+Qed.
+
+(** listed as timed out only when the record, after all transactions of the block, is still BEGIN
+    and its timeout height is this very block *)
+Theorem c06_only w st ops st' bm mid t2 i :
+  reach w st -> block_facts w st ops st' bm mid t2 ->
+  In (TTx i) (get_timeout_list t2 (s_h st + 1)) ->
+  tm_rec (s_tm mid) i = Some (s_h st + 1, ST_BEGIN) /\ ~ receipt_in ops (m_res bm) i.
+Proof.
+  intros R F Hin.
+  destruct (get_timeout_list_spec w t2 (s_h st) (bf_t2_inv _ _ _ _ _ _ _ F)) as [_ [_ Lin]].
+  apply Lin in Hin. destruct Hin as [_ Hl].
+  destruct (m_tx _ _ _ _ _ (bf_t2_inv _ _ _ _ _ _ _ F) (s_h st + 1) i ltac:(lia) Hl) as [s [Es [Hs | []]]]. subst s.
+  rewrite (bf_t2_rec _ _ _ _ _ _ _ F) in Es. split; [exact Es|].
+  intros [b [p [r [Hd [Hrq [Hid [Hrs Hsk]]]]]]].
+  apply (bf_t2_mem _ _ _ _ _ _ _ F (s_h st + 1) (TTx i) (tok_tx_ne_empty i)) in Hl. destruct Hl as [_ Hnr].
+  apply Hnr. exists i. split; [reflexivity|]. unfold rems_of. apply in_flat_map. exists (OIbtp b p, r).
+  split; [exact Hd|]. unfold rem_of. cbn [fst snd]. rewrite Hrq, andb_false_r, Hsk, Hrs, Hid, Es. left. reflexivity.
+Qed.
+
+(** ids enter timeout lists only through a registration, and a registration needs 0 < T < 2^64-1-H *)
+Theorem c06_provenance w st ops st' bm mid t2 hh i :
+  reach w st -> block_facts w st ops st' bm mid t2 -> Forall (op_wf w) ops ->
+  listed (s_tm st') hh (TTx i) ->
+  listed (s_tm st) hh (TTx i) \/ In (hh, i) (pend_of w (s_h st + 1) (combine ops (m_res bm))).
+Proof.
+  intros R F Hwf Hl. apply (listed_ext t2 (s_tm st') (bf_tl _ _ _ _ _ _ _ F)) in Hl.
+  apply (bf_t2_mem _ _ _ _ _ _ _ F hh (TTx i) (tok_tx_ne_empty i)) in Hl. destruct Hl as [[Hl | [i0 [E Hin]]] _].
+  - left. apply (apply_ops_ttx w (s_h st + 1) ops 0 false st mid (m_res bm) hh i Hwf (bf_ops _ _ _ _ _ _ _ F)). exact Hl.
+  - inversion E; subst. right. exact Hin.
+Qed.
+
+Theorem c06_registration_guard w h o r hh i :
+  In (hh, i) (add_of w h (o, r)) ->
+  exists b p, o = OIbtp b p /\ i = b_id b /\ is_request b = true /\ b_grp b = None /\ tx_skipped r = false /\
+              (0 < b_T b)%Z /\ u64_of_Z (b_T b) < MAXU64 - h /\ hh = h + u64_of_Z (b_T b) /\ to_remote_hub w b = false.
+Proof.
+  unfold add_of. cbn [fst snd]. destruct o as [b p| |]; try contradiction.
+  destruct (b_grp b) as [[g n]|] eqn:Eg; cbn [andb].
+  - destruct (is_request b) eqn:Erq; [contradiction|]. destruct (tx_skipped r); [contradiction|]. contradiction.
+  - destruct (tx_skipped r) eqn:Esk; [contradiction|]. destruct (is_request b) eqn:Erq; [|contradiction].
+    destruct ((b_T b <=? 0)%Z || (MAXU64 - h <=? u64_of_Z (b_T b))) eqn:Ev; [contradiction|].
+    destruct (to_remote_hub w b) eqn:Er; [contradiction|].
+    intros [E | []]. inversion E; subst. apply orb_false_iff in Ev. destruct Ev as [Ev1 Ev2].
+    apply Z.leb_gt in Ev1. apply N.leb_gt in Ev2. exists b, p. repeat split; auto.
+Qed.
